@@ -37,6 +37,8 @@ type function struct {
 	function   starlark.Callable
 	oldEnv     starlark.Value
 	newEnv     starlark.Value
+	oldPickle  []byte
+	newPickle  []byte
 
 	out *lineWriter
 }
@@ -129,9 +131,18 @@ func (f *function) diffEnv() (bool, string, diff.ValueDiff, error) {
 		return false, "target has never been run", nil, nil
 	}
 
+	// Environments with identical encodings are equal. Besides being cheap, this is the
+	// only comparison that terminates for self-referential data: structural comparison
+	// of cyclic values exceeds the recursion limit.
+	if f.oldPickle != nil && bytes.Equal(f.oldPickle, f.newPickle) {
+		return true, "", nil, nil
+	}
+
 	eq, err := starlark.EqualDepth(f.oldEnv, f.newEnv, 1000)
 	if err != nil {
-		return false, "", nil, fmt.Errorf("comparing function environments: %w", err)
+		// The encodings differ and the values cannot be compared structurally (cyclic
+		// data): the environment changed, but there is no diff to show.
+		return false, "environment changed", nil, nil
 	}
 	if eq {
 		return true, "", nil, nil
@@ -148,7 +159,8 @@ func (f *function) diffEnv() (bool, string, diff.ValueDiff, error) {
 
 	d, err := diff.DiffDepth(f.oldEnv, f.newEnv, 1000)
 	if err != nil {
-		return false, "", nil, fmt.Errorf("diffing environments: %w", err)
+		// As above: cyclic data cannot be diffed structurally.
+		return false, "environment changed", nil, nil
 	}
 	md, ok := d.(*diff.MappingDiff)
 	if !ok {
@@ -177,11 +189,11 @@ func (f *function) diffEnv() (bool, string, diff.ValueDiff, error) {
 
 func (f *function) upToDate() (bool, string, diff.ValueDiff, error) {
 	// check env
-	newEnv, err := functionEnv(f.function)
+	newEnv, newPickle, err := functionEnv(f.function)
 	if err != nil {
 		return false, "", nil, fmt.Errorf("computing function environment: %w", err)
 	}
-	f.newEnv = newEnv
+	f.newEnv, f.newPickle = newEnv, newPickle
 
 	// if this target always runs, skip the equality check
 	if f.always {
@@ -251,7 +263,7 @@ func (f *function) evaluate() (data string, changed bool, err error) {
 	}
 	b64.Close()
 
-	f.oldEnv = f.newEnv
+	f.oldEnv, f.oldPickle = f.newEnv, f.newPickle
 	return buf.String(), true, nil
 }
 
@@ -276,8 +288,11 @@ func (f *function) load() error {
 	if len(info.Data) == 0 {
 		f.oldEnv = starlark.None
 	} else {
-		b64 := base64.NewDecoder(base64.StdEncoding, strings.NewReader(info.Data))
-		f.oldEnv, err = pickle.NewDecoder(b64, pickle.UnpicklerFunc(envUnpickler)).Decode()
+		f.oldPickle, err = base64.StdEncoding.DecodeString(info.Data)
+		if err != nil {
+			return fmt.Errorf("loading prior function environment: %w", err)
+		}
+		f.oldEnv, err = pickle.NewDecoder(bytes.NewReader(f.oldPickle), pickle.UnpicklerFunc(envUnpickler)).Decode()
 		if err != nil {
 			return fmt.Errorf("loading prior function environment: %w", err)
 		}
@@ -287,13 +302,15 @@ func (f *function) load() error {
 }
 
 // functionEnv returns the given function's environment by round-tripping it through the
-// pickler.
-func functionEnv(f starlark.Callable) (starlark.Value, error) {
+// pickler, together with its encoding.
+func functionEnv(f starlark.Callable) (starlark.Value, []byte, error) {
 	var buf bytes.Buffer
 	if err := pickle.NewEncoder(&buf, newEnvPickler()).Encode(f); err != nil {
-		return nil, err
+		return nil, nil, err
 	}
-	return pickle.NewDecoder(&buf, pickle.UnpicklerFunc(envUnpickler)).Decode()
+	encoded := buf.Bytes()
+	env, err := pickle.NewDecoder(bytes.NewReader(encoded), pickle.UnpicklerFunc(envUnpickler)).Decode()
+	return env, encoded, err
 }
 
 // An envPickler provides support for pickling functions and modules.
